@@ -74,7 +74,7 @@ theorem uInt_bv_of_inRange {x : Int} (h : u32.inRange x = true) : uInt (bv x) = 
 @[c13] theorem f32_ne_f64 : (RsslVerif.Model.ConstEvalFloat.f32 = RsslVerif.Model.ConstEvalFloat.f64) = False := by
   simp [RsslVerif.Model.ConstEvalFloat.f64, RsslVerif.Model.ConstEvalFloat.f32]
 
-attribute [c13] castScalar castTable applyCastRule mkConst rustInt rustFloat S.castScalar
+attribute [c13] castScalar stripEnum castTable applyCastRule mkConst rustInt rustFloat S.castScalar
 
 theorem castScalar_agrees (s : Scalar) {v r : Constant} (hv : plain v = true)
     (h : castScalar s v = .ok r) : S.castScalar s v = some r ∧ plain r = true := by
@@ -98,8 +98,8 @@ theorem evalCast_agrees (t : Ty) {v r : Constant} (hv : wf v = true)
   have hcs : ∀ s, castScalar s v = castScalar s (S.strip v) := by
     intro s
     cases v with
-    | enum i c => cases c <;> simp_all [castScalar, S.strip, plain, wf, Constant.kind]
-    | _ => simp [castScalar, S.strip]
+    | enum i c => cases c <;> simp_all [castScalar, stripEnum, S.strip, plain, wf, Constant.kind]
+    | _ => simp [castScalar, stripEnum, S.strip]
   cases t with
   | scalar s =>
     simp only [evalCast, hcs] at h
